@@ -14,8 +14,8 @@ DIG_RE = re.compile(r'"digest":"([0-9a-f]+)"')
 DRIVERS = [("c03.cc", []), ("c40.cc", ["--mode", "table"]), ("c38.cc", []), ("c19.cc", ["--mode", "conc"]), ("c33.cc", ["--tolerate", "model-differs-after-fusestatic:*"]), ("c02.cc", []), ("c21t.cc", [])]
 
 
-def digest(binary, seed0, n, args, cpu=None, env=None):
-    rc, out, err = C.run_proc([binary, "--seed", str(seed0), "--n", str(n), "--faildir", "/tmp"] + args, 300, cpu=cpu, env=env)
+def digest(binary, seed0, n, args, cpu=None, env=None, faildir="/tmp"):
+    rc, out, err = C.run_proc([binary, "--seed", str(seed0), "--n", str(n), "--faildir", faildir] + args, 300, cpu=cpu, env=env)
     m = DIG_RE.search(out)
     if rc != 0 or not m:
         raise C.HarnessError("selftest: %s exited %s: %s" % (binary, rc, (out + err)[-500:]))
@@ -36,8 +36,12 @@ def run(argv):
             d1 = digest(b, 1000, per, args)
             d2 = digest(b, 1000, per, args, cpu=C.cpus()[0])
             d3 = digest(b, 1000, per, args, env={"MALLOC_PERTURB_": "165"})
-            if not (d1 == d2 == d3):
-                problems.append("%s: digests differ between free/pinned/perturbed-heap runs: %s %s %s" % (src, d1, d2, d3))
+            # the harness's own heap use (argument strings of another length, an extra option) must not move what the code under test sees
+            longdir = os.path.join(wd, "a_directory_name_long_enough_to_leave_the_small_string_buffer_" + "x" * 40)
+            os.makedirs(longdir, exist_ok=True)
+            d4 = digest(b, 1000, per, args + ["--unused-option", "y" * 70], faildir=longdir)
+            if not (d1 == d2 == d3 == d4):
+                problems.append("%s: digests differ between free/pinned/perturbed-heap/other-arguments runs: %s %s %s %s" % (src, d1, d2, d3, d4))
             if src == "c21t.cc":
                 continue   # several simulated runs per seed (one per faulted allocation): only the digest comparisons apply
             # batch vs single-seed processes, and record -> replay
